@@ -49,4 +49,11 @@ static const char *ename(int e)
 	default: { static char b[32]; snprintf(b, sizeof(b), "E%d", e); return b; }
 	}
 }
+
+/* per-request watchdog: a request that runs longer than `sec` seconds answers HANG and ends the
+ * process (the runner restarts the harness behind that request) */
+#include <signal.h>
+#include <unistd.h>
+static void h_on_alarm(int sig) { (void)sig; static const char m[] = "\nHANG\n"; if (write(1, m, sizeof(m) - 1)) {} _exit(97); }
+static void h_watchdog(unsigned sec) { signal(SIGALRM, h_on_alarm); alarm(sec); }
 #endif
